@@ -30,6 +30,9 @@ pub struct Case {
     pub replay: Vec<u8>,
     pub strict: bool,
     pub readdir_fault: (u32, u32),
+    /// stat() by name of this directory (relative path) fails while the walk runs
+    /// (syscall shim preloaded into this process); only with same_file_system.
+    pub stat_fault: Option<String>,
 }
 
 #[derive(Clone, Debug, Default)]
@@ -57,6 +60,41 @@ pub struct RunResult {
     pub panicked: bool,
     pub dup_during_run: Option<String>,
     pub under_skipped: Option<String>,
+    /// How often the injected stat-by-name fault fired during the walk.
+    pub stat_faults: u64,
+}
+
+/// The syscall shim (sim/faultshim), preloaded into this process so that a stat() by name
+/// can be made to fail during one walk.
+pub mod shim {
+    use std::ffi::CString;
+    use std::path::Path;
+    pub const PATH: &str = "/verif/sim/faultshim/faultshim.so";
+    type SetFn = unsafe extern "C" fn(*const libc::c_char, *const libc::c_char);
+    type CntFn = unsafe extern "C" fn() -> libc::c_long;
+    fn sym(name: &str) -> *mut libc::c_void {
+        let c = CString::new(name).unwrap();
+        unsafe { libc::dlsym(libc::RTLD_DEFAULT, c.as_ptr()) }
+    }
+    pub fn available() -> bool {
+        !sym("faultshim_set").is_null()
+    }
+    pub fn set(root: &Path, plan: &str) {
+        let f = sym("faultshim_set");
+        if f.is_null() {
+            return;
+        }
+        let r = CString::new(root.to_str().unwrap()).unwrap();
+        let p = CString::new(plan).unwrap();
+        unsafe { std::mem::transmute::<*mut libc::c_void, SetFn>(f)(r.as_ptr(), p.as_ptr()) }
+    }
+    pub fn stat_faults() -> u64 {
+        let f = sym("faultshim_stat_faults");
+        if f.is_null() {
+            return 0;
+        }
+        unsafe { std::mem::transmute::<*mut libc::c_void, CntFn>(f)() as u64 }
+    }
 }
 
 fn rel(root: &Path, p: &Path) -> String {
@@ -196,6 +234,7 @@ pub fn run_parallel(base: &Path, case: &Case) -> RunResult {
         panicked: res.is_err(),
         dup_during_run: sh.dup.clone(),
         under_skipped: sh.under.clone(),
+        stat_faults: 0,
     }
 }
 
@@ -298,6 +337,7 @@ fn gen_case_c07(sub: u64, thorough: bool) -> Case {
         replay: vec![],
         strict: false,
         readdir_fault: (0, 1),
+        stat_fault: None,
     }
     .with_faults(&mut rng)
 }
@@ -307,6 +347,15 @@ impl Case {
         if rng.chance(1, 8) {
             self.readdir_fault = (1, 6);
             self.visitor.skip_on_error = rng.chance(1, 2);
+        } else if rng.chance(1, 8) && shim::available() {
+            // the device check of one directory fails (same_file_system): the directory is
+            // reported together with an error and not descended into; nothing else is lost
+            let dirs: Vec<&Node> = self.tree.nodes.iter().filter(|n| n.kind == NodeKind::Dir && !self.tree.roots.contains(&n.path)).collect();
+            if !dirs.is_empty() {
+                self.stat_fault = Some(dirs[rng.below(dirs.len())].path.clone());
+                self.cfg.same_file_system = true;
+                self.visitor.skip_on_error = rng.chance(1, 2);
+            }
         }
         self
     }
@@ -359,6 +408,7 @@ fn gen_case_c06(sub: u64, thorough: bool) -> Case {
         replay: vec![],
         strict: false,
         readdir_fault: (0, 1),
+        stat_fault: None,
     }
 }
 
@@ -402,7 +452,11 @@ fn check_c07(case: &Case, base: &Path, r: &RunResult) -> Option<Verdict> {
     if let Some(d) = &r.under_skipped {
         return Some(Verdict { class: "skip-ignored".into(), summary: format!("entry visited beneath a skipped directory: {d}") });
     }
-    let expected = expected_plain(base, &case.tree, &case.visitor.skip);
+    let mut expected = expected_plain(base, &case.tree, &case.visitor.skip);
+    if let (Some(d), true) = (&case.stat_fault, r.stat_faults > 0) {
+        // the directory whose device check failed is still handed out, but not entered
+        expected.retain(|p| !p.starts_with(&format!("{d}/")));
+    }
     let seen_ok: BTreeSet<String> = r.seen.iter().filter_map(|s| if let Seen::Ok(p) = s { Some(p.clone()) } else { None }).collect();
     let n_err = r.seen.iter().filter(|s| matches!(s, Seen::Err(..))).count();
     if let Some(p) = seen_ok.iter().find(|p| !expected.contains(*p)) {
@@ -414,8 +468,8 @@ fn check_c07(case: &Case, base: &Path, r: &RunResult) -> Option<Verdict> {
                 let lost: Vec<_> = expected.difference(&seen_ok).take(5).cloned().collect();
                 return Some(Verdict { class: "lost-entry".into(), summary: format!("{} entries never visited, e.g. {:?}", expected.len() - seen_ok.len(), lost) });
             }
-            if n_err > 0 {
-                return Some(Verdict { class: "spurious-error".into(), summary: format!("{n_err} errors reported on a fault-free tree") });
+            if n_err as u64 != r.stat_faults {
+                return Some(Verdict { class: if r.stat_faults == 0 { "spurious-error" } else { "fault-not-reported" }.into(), summary: format!("{n_err} errors reported, {} stat faults fired", r.stat_faults) });
             }
         } else {
             // Injected entry errors: every injected fault is reported as an
@@ -567,6 +621,7 @@ fn case_to_json(case: &Case) -> Value {
             "strict": case.strict,
         },
         "readdir_fault": [case.readdir_fault.0, case.readdir_fault.1],
+        "stat_fault": case.stat_fault,
     })
 }
 
@@ -584,6 +639,7 @@ fn case_from_json(v: &Value) -> Case {
         replay: v["sched"]["choices"].as_array().map(|a| a.iter().map(|x| x.as_u64().unwrap_or(0) as u8).collect()).unwrap_or_default(),
         strict: v["sched"]["strict"].as_bool().unwrap_or(false),
         readdir_fault: (v["readdir_fault"][0].as_u64().unwrap_or(0) as u32, v["readdir_fault"][1].as_u64().unwrap_or(1).max(1) as u32),
+        stat_fault: v["stat_fault"].as_str().map(String::from),
     }
 }
 
@@ -600,7 +656,17 @@ fn evaluate(prop: &str, case: &Case, scratch: &Path) -> (RunResult, Option<Verdi
     let base = scratch.join("r");
     let _ = std::fs::remove_dir_all(&base);
     let xdev = materialise(&base, &case.tree);
-    let r = run_parallel(&base, case);
+    if let Some(d) = &case.stat_fault {
+        if !shim::available() {
+            harness_error("this case injects a stat fault but the syscall shim is not loaded");
+        }
+        shim::set(&base, &format!("stat_err=/{d}:13"));
+    }
+    let mut r = run_parallel(&base, case);
+    if case.stat_fault.is_some() {
+        r.stat_faults = shim::stat_faults();
+        shim::set(&base, "");
+    }
     let v = if prop == "C07" {
         check_c07(case, &base, &r)
     } else {
@@ -749,7 +815,11 @@ fn worker_main(opts: &Opts) {
             hashes.insert(o.hash);
         }
         faults.add("readdir-permutation", o.readdir_calls);
-        faults.add("readdir-entry-error", o.readdir_faults);
+        if prop == "C07" {
+            // (C06 compares with the serial walker, whose directory reads are not hooked)
+            faults.add("readdir-entry-error", o.readdir_faults);
+            faults.add("stat-fails-at-device-check(syscall shim)", r.stat_faults);
+        }
         faults.add("preemption", o.preemptions);
         faults.add("idle-sleep-simulated", o.idle_ms);
         if case.visitor.quit_at.is_some() {
@@ -949,6 +1019,12 @@ fn replay_main(opts: &Opts, path: &Path) -> i32 {
 }
 
 fn main() {
+    // every walksim process (driver, workers, replay) runs with the syscall shim preloaded
+    if !shim::available() && Path::new(shim::PATH).exists() && std::env::var_os("WALKSIM_REEXECED").is_none() {
+        use std::os::unix::process::CommandExt;
+        let err = std::process::Command::new(std::env::current_exe().unwrap()).args(std::env::args_os().skip(1)).env("LD_PRELOAD", shim::PATH).env("WALKSIM_REEXECED", "1").exec();
+        harness_error(&format!("re-exec with the syscall shim failed: {err}"));
+    }
     let opts = Opts::parse();
     ignore::verif::set_event_fn(Some(vsched::ripgrep_verif_event));
     if opts.get("worker").is_some() {
